@@ -1,4 +1,5 @@
 """C05 - temperature schedule is monotone, bounded and ESS-controlled (world + monitors)."""
+import json
 import random
 
 from ..monitors import ScheduleMon
@@ -8,7 +9,8 @@ from . import _worldprop as wp
 PROP = "C05"
 LEVEL = "exploration"
 RULE = ("seeded sampler executions (target x config x eval mode x metric mode {ESS, volume-variation}) under crash->resume, reconfigured resume, "
-        "re-run, zero-likelihood regions and extreme likelihood scales; every iteration's reweight stage is checked exactly against an independent "
+        "re-run, zero-likelihood regions and extreme likelihood scales, plus constructed pools (checkpoints imported through SimFS whose ESS crossing sits at a chosen beta*: inside the "
+        "(1-1e-4,1) termination window, right after beta_prev, mid-range) on which the real reweight stage is run once; every iteration's reweight stage is checked exactly against an independent "
         "extended-precision MIS reference; distinct = configuration/scenario class; non-trivial = at least 3 iterations executed")
 ASSUMPTIONS = ["RefMIS (tsim/refmis.py) is the oracle for ESS/logZ/weights", "in volume-variation mode the ESS floor is judged only when the reference ESS curve on [beta_prev,1] is monotone (else counted inconclusive)"]
 
@@ -34,10 +36,88 @@ def cases(seed, tier):
         if r.random() < 0.5:
             c["cfg"]["volume_variation"] = r.choice([0.05, 0.1, 0.25, 1.0])
         out.append(c)
+    for k in range(n // 4):
+        r = random.Random(sch.np_seed(f"c05.con{k}"))
+        star = r.choice([1 - 3e-5, 1 - 5e-5, 1 - 2e-5, 1 - 9e-5, 1 - 2e-4, 0.999, r.uniform(0.3, 0.99), r.uniform(0.3, 0.99)])
+        ratio = r.choice([1.0, 1.0, 2.0])
+        out.append(dict(constructed=True, seed=sch.np_seed(f"con{k}") % (2**31), d=r.choice([1, 2]), N=r.choice([16, 32, 64]), ess_ratio=ratio, T=int(ratio) + r.choice([1, 2, 3]),
+                        spread=r.choice([1.0, 3.0, 10.0]), beta_star=star, vv=r.choice([None, None, None, 0.25])))
     return out
 
 
+def run_constructed(case):
+    """A checkpoint whose pool puts the ESS crossing at a chosen beta* is imported through SimFS/load_state and the
+    real reweight stage is run once on it: boundary situations (last step inside (1-1e-4,1), ESS exactly at the target at
+    beta_prev, crossing right after beta_prev) are reached on purpose instead of once in hundreds of runs."""
+    import dill
+    import numpy as np
+
+    from .. import refmis, targets as T
+    from ..world import World
+
+    r = random.Random(case["seed"])
+    nr = np.random.RandomState(case["seed"] % (2**31))
+    d, N, ratio, Tn = case["d"], case["N"], case["ess_ratio"], case["T"]
+    target = ratio * N
+    # history: T batches at increasing beta; logZ_t from the MIS estimate over the earlier batches (as a run would record)
+    betas = sorted([0.0] + [r.uniform(0.0, 0.4) for _ in range(Tn - 1)])
+    logls = [nr.standard_normal(N) * case["spread"] - case["spread"] for _ in range(Tn)]
+    def build(f):
+        b = []
+        for t in range(Tn):
+            bt = betas[t] / f
+            lz = 0.0 if t == 0 else float(refmis.mis(b, bt)[1])
+            b.append((bt, lz, logls[t] * f))
+        return b
+    def ess_at(b, beta):
+        return refmis.ess_from_logw(refmis.mis(b, beta)[0])
+    base = build(1.0)
+    bp = base[-1][0]
+    if not (ess_at(base, bp) > target * 1.02 and ess_at(base, 1.0) < target * 0.98):
+        return dict(violations=[], stats=dict(constructed_unsuitable=1), probes={}, digest="unsuitable", distinct_key=None, nontrivial=False)
+    lo, hi = bp, 1.0
+    for _ in range(80):
+        mid = 0.5 * (lo + hi)
+        if ess_at(base, mid) >= target:
+            lo = mid
+        else:
+            hi = mid
+    bc = lo
+    f = bc / case["beta_star"]
+    b = build(f)
+    hist = {k: [] for k in ("u", "x", "logl", "blobs", "iter", "logz", "calls", "steps", "efficiency", "ess", "acceptance", "beta")}
+    for t, (bt, lz, ll) in enumerate(b):
+        u = nr.random_sample((N, d))
+        hist["u"].append(u); hist["x"].append(u.copy()); hist["logl"].append(ll); hist["logz"].append(lz); hist["beta"].append(bt)
+        hist["iter"].append(t + 1); hist["calls"].append(N * (t + 1)); hist["steps"].append(1); hist["efficiency"].append(1.0); hist["acceptance"].append(1.0); hist["ess"].append(float(N))
+    cur = dict(u=hist["u"][-1], x=hist["x"][-1], logl=hist["logl"][-1], assignments=np.zeros(N, dtype=int), blobs=None, acceptance=1.0, steps=1, efficiency=1.0, ess=float(N),
+               beta=hist["beta"][-1], logz=hist["logz"][-1], calls=hist["calls"][-1], iter=Tn)
+    blob = {"_current": cur, "_history": hist, "n_dim": d, "random_state": None, "n_total": 4 * N, "logz_err": None}
+    mon = ScheduleMon(PROP)
+    cfg = dict(n_particles=N, ess_ratio=ratio, clustering=False)
+    if case.get("vv"):
+        cfg["volume_variation"] = case["vv"]
+    w = World(dict(seed=case["seed"], target=dict(T.spec_gauss(d=d), kind="gauss"), cfg=cfg), monitors=[mon])
+    with w.incarnation() as inc:
+        w.fs.sys_mkdir("/simfs/out")
+        with open("/simfs/out/constructed.state", "wb") as fh:
+            dill.dump(blob, fh)
+        s = inc.new_sampler()
+        s.load_state("/simfs/out/constructed.state")
+        s._core.reweighter.run()
+        beta_new = float(s.state._current["beta"])
+    if w.escapes:
+        raise RuntimeError("; ".join(w.escapes))
+    if 1.0 - beta_new < 1e-4 and beta_new < 1.0:
+        w.probe("constructed.last_step_inside_termination_window")
+    return dict(violations=list(w.violations), stats=dict(constructed_pools=1, advances=mon.n_adv, stays=mon.n_stay), probes=dict(w.probes), digest=json.dumps([beta_new, len(w.violations)]),
+                distinct_key=f"constructed/T{Tn}/N{N}/r{ratio}/b*{case['beta_star']:.6f}/vv{case.get('vv')}", nontrivial=True,
+                sample=dict(kind="constructed pool", beta_star=case["beta_star"], beta_prev=hist["beta"][-1], beta_chosen=beta_new, target_ess=target))
+
+
 def run_case(case):
+    if case.get("constructed"):
+        return run_constructed(case)
     mon = ScheduleMon(PROP)
     out, w, info = wp.run_with(case, [mon])
     out["stats"].update(advances=mon.n_adv, stays=mon.n_stay, vv_inconclusive=mon.n_inconclusive)
@@ -45,4 +125,13 @@ def run_case(case):
     return out
 
 
-shrink = wp.generic_shrink
+def shrink(case):
+    if case.get("constructed"):
+        if case["T"] > 1:
+            yield dict(case, T=1)
+        if case.get("vv"):
+            yield dict(case, vv=None)
+        if case["d"] > 1:
+            yield dict(case, d=1)
+        return
+    yield from wp.generic_shrink(case)
